@@ -330,12 +330,9 @@ Proof.
   change (initial_round :: ?l) with ([initial_round] ++ l). rewrite run_rounds_app.
   cbn [run_rounds initial_round enter r_mood r_final r_ts r_vs].
   destruct (round c false (with_mood _ "clear" 0) 0 []) as [[s1 o1] st1] eqn:E0.
-  destruct (run_events c s1 st1 es) as [[os2 s2] st2] eqn:E1. intros H; inversion H; subst.
-  assert (Hst : st1 = Running).
-  { destruct st1; [reflexivity| |].
-    - exfalso. exact (run_events_aborted_not_running c es _ _ _ _ E1 eq_refl).
-    - destruct es; cbn in E1; inversion E1. }
-  subst st1. cbn [fst]. eapply run_events_rounds. exact E1.
+  destruct st1; try (intros H; inversion H; fail).
+  destruct (run_events c s1 Running es) as [[os2 s2] st2] eqn:E1. intros H; inversion H; subst.
+  cbn [fst]. eapply run_events_rounds. exact E1.
 Qed.
 
 (** ** The end-to-end statements over run_audition *)
